@@ -1042,6 +1042,14 @@ func ruleC11c(p *Prog, r *Res, worker func(string) (*Fn, *Fn), tagsFld, refByFld
 	}
 	bodyHas := func(w *Fn, kind string) func(*ast.BlockStmt) bool {
 		info := w.Pkg.TypesInfo
+		// the map itself or a local that stands for it (users := mgr.tags[rtn].referencedBy; a map is a reference)
+		isRefBy := func(e ast.Expr) bool {
+			if isFieldOf(info, e, refByFld) {
+				return true
+			}
+			_, isId := ast.Unparen(e).(*ast.Ident)
+			return isId && mentionsCopyOf(info, w, e, refByFld)
+		}
 		return func(b *ast.BlockStmt) bool {
 			hit := false
 			ast.Inspect(b, func(x ast.Node) bool {
@@ -1049,13 +1057,13 @@ func ruleC11c(p *Prog, r *Res, worker func(string) (*Fn, *Fn), tagsFld, refByFld
 				case *ast.AssignStmt:
 					if kind == "add" {
 						for _, l := range s.Lhs {
-							if ix, ok := ast.Unparen(l).(*ast.IndexExpr); ok && isFieldOf(info, ix.X, refByFld) {
+							if ix, ok := ast.Unparen(l).(*ast.IndexExpr); ok && isRefBy(ix.X) {
 								hit = true
 							}
 						}
 					}
 				case *ast.CallExpr:
-					if kind == "del" && isBuiltin(info, s, "delete") && len(s.Args) == 2 && isFieldOf(info, s.Args[0], refByFld) {
+					if kind == "del" && isBuiltin(info, s, "delete") && len(s.Args) == 2 && isRefBy(s.Args[0]) {
 						hit = true
 					}
 				}
